@@ -1,5 +1,5 @@
 """C15 — node restrictions cannot be escaped by navigation (P-tier: flag inheritance, guards, restrict monotone)."""
-from . import tocinit, attrsacl, contops, interface, listing, metaread, query, wrappers
+from . import packerpg, tocinit, attrsacl, contops, interface, listing, metaread, query, wrappers
 
 
 def build(reg):
@@ -13,5 +13,6 @@ def build(reg):
     keep += attrsacl.add_group_contains(reg)
     keep += attrsacl.add_attrsacl(reg)  # attribute managers of restricted nodes, attribute fall-through to the raw object
     keep += [x for x in tocinit.add_tocinit(reg) if 'C15' in x.props]  # opening never writes through a read-only container
+    keep += [x for x in packerpg.add_packerpg(reg) if 'C15' in x.props]  # packers only ever get a skel_only, unclosable container
     keep += interface.add_interface(reg)  # attach / detach through a read_only node: refused without effect
-    return {"verify": keep, "lemmas": [], "trusted": ["T7 wrapt.ObjectProxy: _self_* attributes are local to the wrapper; __wrapped__ is the raw object"] + tocinit.T_TOCINIT + attrsacl.T_ATTRS + attrsacl.T_CONTAINS + contops.T_OPS + query.T_QUERY + metaread.T_READ + listing.T_LIST, "assumptions": ["navigation chains of any length: every step creates its result through _wrap_if_node/_child_node_kwargs (proved flag-monotone), so flags are monotone along every chain; the list of navigation primitives that do so is checked bounded"]}
+    return {"verify": keep, "lemmas": [], "trusted": ["T7 wrapt.ObjectProxy: _self_* attributes are local to the wrapper; __wrapped__ is the raw object"] + packerpg.T_PACKER + tocinit.T_TOCINIT + attrsacl.T_ATTRS + attrsacl.T_CONTAINS + contops.T_OPS + query.T_QUERY + metaread.T_READ + listing.T_LIST, "assumptions": ["navigation chains of any length: every step creates its result through _wrap_if_node/_child_node_kwargs (proved flag-monotone), so flags are monotone along every chain; the list of navigation primitives that do so is checked bounded"]}
